@@ -18,6 +18,7 @@ from ufl.argument import Argument
 from ufl.coefficient import Coefficient
 from ufl.constant import Constant
 from ufl.core.multiindex import FixedIndex, MultiIndex
+from ufl.geometry import GeometricQuantity
 from ufl.variable import Label
 
 
@@ -89,6 +90,17 @@ def _cmp_constant(a, b):
         return 0
 
 
+def _cmp_geometric_quantity(a, b):
+    """Cmp geometric quantity."""
+    # Same type, so only the domains can differ. Use the canonical
+    # domain order (relative mesh ids), not repr: repr orders mesh id
+    # 10 before mesh id 9.
+    x, y = a._domain._ufl_sort_key_(), b._domain._ufl_sort_key_()
+    if x == y:
+        return 0
+    return -1 if x < y else 1
+
+
 def _cmp_argument(a, b):
     """Cmp argument."""
     # It's ok to compare relative number and part for Arguments,
@@ -141,6 +153,8 @@ def cmp_expr(a, b):
         if a._ufl_is_terminal_:
             if x in _terminal_cmps:
                 c = _terminal_cmps[x](a, b)
+            elif isinstance(a, GeometricQuantity):
+                c = _cmp_geometric_quantity(a, b)
             else:
                 c = _cmp_terminal_by_repr(a, b)
 
